@@ -100,6 +100,8 @@ class S(explore.Spec):
     if observe.ill_typed(g):
       return [("skip", "ill-typed reference")]
     probs = invariants.check_closed_symmetric(g, env.removed)
+    if not probs and err is None:
+      probs = [("namespace", x) for x in invariants.namespace_coherence(g)]
     if not probs and self.reparse and not invariants.placeholders(g):
       try:
         txt = str(g)
